@@ -485,6 +485,80 @@ func main() {
 			t.Outcome("echoed")
 		})
 
+		// A destination that fails once with an error calling itself temporary (or a timeout),
+		// having accepted nothing or a few bytes, and works again afterwards: whenever every call of
+		// the writer reported success, what lies on the wire is one well-formed message carrying
+		// exactly the bytes written (a failure that is reported obliges to nothing here; C16 judges that).
+		r.Part("E7-destination-fails-once-temporarily", func(t *explore.T) {
+			for _, client := range []bool{true, false} {
+				for _, size := range []int{4, 16, 125} {
+					for _, n := range []int{0, 1, 5, 16, 17, 40} {
+						for _, how := range []string{"Write+Flush", "Write+FlushFragment+Write+Flush", "WriteThrough+Flush", "ReadFrom+Flush"} {
+							for failAt := 0; failAt <= 3; failAt++ {
+								for _, timeout := range []bool{false, true} {
+									for _, partial := range []int{0, 1, 3} {
+										client, size, n, how, failAt, timeout, partial := client, size, n, how, failAt, timeout, partial
+										t.Do(func() string {
+											return fmt.Sprintf("client=%v Writer of %d bytes, %d bytes by %s; destination call %d fails once (temporary, timeout=%v) after accepting %d bytes", client, size, n, how, failAt, timeout, partial)
+										}, func() *explore.Fail {
+											st := ws.StateServerSide
+											if client {
+												st = ws.StateClientSide
+											}
+											d := env.NewDst()
+											d.FailAt, d.Partial, d.Transient, d.Err = failAt, partial, true, env.TempErr{IsTimeout: timeout}
+											w := wsutil.NewWriterSize(d, st, ws.OpBinary, size)
+											data := make([]byte, n)
+											for i := range data {
+												data[i] = byte(i*13 + 7)
+											}
+											var errs []error
+											switch how {
+											case "Write+Flush":
+												_, e := w.Write(data)
+												errs = append(errs, e, w.Flush())
+											case "Write+FlushFragment+Write+Flush":
+												_, e1 := w.Write(data[:n/2])
+												e2 := w.FlushFragment()
+												_, e3 := w.Write(data[n/2:])
+												errs = append(errs, e1, e2, e3, w.Flush())
+											case "WriteThrough+Flush":
+												_, e := w.WriteThrough(data)
+												errs = append(errs, e, w.Flush())
+											default:
+												_, e := w.ReadFrom(bytes.NewReader(data))
+												errs = append(errs, e, w.Flush())
+											}
+											for _, e := range errs {
+												if e != nil {
+													t.Outcome("failure-reported")
+													return nil
+												}
+											}
+											if !d.Failed {
+												t.Outcome("no-failure-happened")
+												return nil
+											}
+											frames, rest := drivers.ParseFrames(d.Bytes())
+											var got []byte
+											for _, f := range frames {
+												got = append(got, f.Payload...)
+											}
+											if len(rest) != 0 || len(frames) == 0 || !frames[len(frames)-1].H.Fin || !bytes.Equal(got, data) {
+												return explore.Failf("success-reported-after-a-temporary-failure-but-the-wire-is-not-the-message", "%d frames, %d stray bytes, payload %x, written %x", len(frames), len(rest), got, data)
+											}
+											t.Outcome("failure-absorbed-correctly")
+											return nil
+										})
+									}
+								}
+							}
+						}
+					}
+				}
+			}
+		})
+
 		// One message of more fragments than a 16-bit counter holds (a one-byte payload per
 		// frame), then a short message from the same writer.
 		r.Part("E4-message-of-70001-fragments", func(t *explore.T) {
